@@ -119,7 +119,29 @@ def present_pair(c, rng, disjoint=False):
     rng.shuffle(syms)
     d = dict(c)
     d.update({"A": A, "B": B, "syms": syms, "pres": [na, nb]})
-    if not disjoint and c.get("op") in ("incl", "union", "isect", "bddincl") and rng.random() < 0.06:
+    if not disjoint and c.get("op") in ("incl", "union", "isect") and rng.random() < 0.08:
+        # B is a copy of A that is then edited through the API (final states changed, a few rules added): the operands
+        # share whatever copy-on-write leaves shared, and the pair is "nearly equal"
+        B2 = {"fin": list(A["fin"]), "rules": [list(r) for r in A["rules"]]}
+        st = sorted(states_of(A)) or [0]
+        how = rng.random()
+        if how < 0.3:
+            B2["fin"] = sorted(set(B2["fin"]) | {rng.choice(st)})
+        elif how < 0.6 and B2["fin"]:
+            B2["fin"] = [q for q in B2["fin"] if rng.random() < 0.5]
+        elif how < 0.75:
+            B2["fin"] = [q for q in st if rng.random() < 0.4]
+        sy = syms_of(A) or [["a", 0]]
+        for _ in range(rng.choice([0, 0, 1, 1, 2])):
+            x = rng.choice(sy)
+            r = [x[0], [rng.choice(st) for _ in range(x[1])], rng.choice(st)]
+            if r not in B2["rules"]:
+                B2["rules"].append(r)
+        d["B"] = B2
+        d["bmode"] = "extend"
+        d["syms"] = syms_of(A)
+        d.pop("split", None)
+    elif not disjoint and c.get("op") in ("incl", "union", "isect", "bddincl") and rng.random() < 0.06:
         # the same object as both operands, or a copy sharing its storage (value: B = A)
         d["B"] = {"fin": list(A["fin"]), "rules": [list(r) for r in A["rules"]]}
         d["bmode"] = rng.choice(["alias", "copy"])
